@@ -43,7 +43,10 @@ func (r *Replayer) Replay(process func(record []byte) error) (err error) {
 		}
 	}()
 
-	for _, path := range walFiles {
+	for i, path := range walFiles {
+		// only the file that was being written when the process died can be incomplete
+		lastFile := i == len(walFiles)-1
+
 		reader, err := r.walOptions.readerFactory(path)
 		if err != nil {
 			return fmt.Errorf("error while creating WAL reader under '%s': %w", path, err)
@@ -52,6 +55,10 @@ func (r *Replayer) Replay(process func(record []byte) error) (err error) {
 
 		err = reader.Open()
 		if err != nil {
+			// the process died after creating the file and before its header was written: nothing was logged into it
+			if lastFile && (errors.Is(err, io.EOF) || errors.Is(err, io.ErrUnexpectedEOF)) {
+				break
+			}
 			return fmt.Errorf("error while opening WAL reader under '%s': %w", path, err)
 		}
 
